@@ -98,6 +98,26 @@ def main(ctx):
     ctx.extra["exported_cases"] = len(allcases)
     ctx.extra["max_nodes_model"] = max(len(c["parent"]) for c in allcases)
 
+    # M + R, the life of a Taxonomy object -------------------------------------------------------
+    # TaxLife.tla: every history of AddNewTaxa (declare / re-declare with replace) and ReindexParent calls;
+    # theorem Agreement: once indexed, walking the parent pointers is walking the declared tree.  The variant
+    # that leaves linked objects alone must break it (negative test of the model).  Every history that ends
+    # indexed is replayed on a real obitax.Taxonomy.
+    life = ctx.path("life.ndjson")
+    lm = ctx.tlc_model("TaxLifeMC", "TaxLife_thorough.cfg" if thorough else "TaxLife_quick.cfg",
+                       env={"VERIF_CASES": life}, timeout=3000)
+    neg = ctx.tlc("TaxLifeMC", "TaxLife_incremental.cfg", timeout=600, count=False)
+    if "Agreement" not in neg.invariant_violated:
+        raise vlib.Inconclusive("negative test: incremental re-indexing should break Agreement in TaxLife.tla")
+    lres = ctx.path("life_res.ndjson")
+    ctx.harness(["replay", "C14life", "--cases", life, "--out", lres], timeout=3000)
+    lsum = ctx.add_results(lres)
+    os.remove(life)
+    for need in ("life.plain", "life.redeclared", "life.redeclared+reindexed-twice", "life.pair.redeclared+reindexed-twice"):
+        ctx.expect_vacuity("class " + need, ctx.classes.get(need, 0))
+    ctx.extra["life_histories_model_states"] = lm.distinct
+    ctx.extra["life_taxa_checked"] = lsum["checked"]
+
     # R ---------------------------------------------------------------------------------------
     ncmd = 1500 if thorough else 150
     # the binaries run on a seeded sample, always including the extreme shapes of every size
@@ -128,26 +148,6 @@ def main(ctx):
                  % ctx.extra["transient_binary_crashes_repeated_ok"])
     ctx.extra["comparisons_with_model_tables"] = sum(v for k, v in ctx.classes.items()
                                                      if k.split(".")[0] in ("api", "dump", "cmd"))
-
-    # M + R, the life of a Taxonomy object -------------------------------------------------------
-    # TaxLife.tla: every history of AddNewTaxa (declare / re-declare with replace) and ReindexParent calls;
-    # theorem Agreement: once indexed, walking the parent pointers is walking the declared tree.  The variant
-    # that leaves linked objects alone must break it (negative test of the model).  Every history that ends
-    # indexed is replayed on a real obitax.Taxonomy.
-    life = ctx.path("life.ndjson")
-    lm = ctx.tlc_model("TaxLifeMC", "TaxLife_thorough.cfg" if thorough else "TaxLife_quick.cfg",
-                       env={"VERIF_CASES": life}, timeout=3000)
-    neg = ctx.tlc("TaxLifeMC", "TaxLife_incremental.cfg", timeout=600, count=False)
-    if "Agreement" not in neg.invariant_violated:
-        raise vlib.Inconclusive("negative test: incremental re-indexing should break Agreement in TaxLife.tla")
-    lres = ctx.path("life_res.ndjson")
-    ctx.harness(["replay", "C14life", "--cases", life, "--out", lres], timeout=3000)
-    lsum = ctx.add_results(lres)
-    os.remove(life)
-    for need in ("life.plain", "life.redeclared", "life.redeclared+reindexed-twice", "life.pair.redeclared+reindexed-twice"):
-        ctx.expect_vacuity("class " + need, ctx.classes.get(need, 0))
-    ctx.extra["life_histories_model_states"] = lm.distinct
-    ctx.extra["life_taxa_checked"] = lsum["checked"]
 
     # T ---------------------------------------------------------------------------------------
     trace = ctx.path("trace.ndjson")
